@@ -181,6 +181,9 @@ func (v *Voucher) DevicePublicKey() (crypto.PublicKey, error) {
 	if len(*v.CertChain) == 0 {
 		return nil, errors.New("empty cert chain")
 	}
+	if (*v.CertChain)[0] == nil {
+		return nil, errors.New("null certificate in cert chain")
+	}
 	return (*v.CertChain)[0].PublicKey, nil
 }
 
@@ -214,6 +217,9 @@ func (v *Voucher) VerifyDeviceCertChain(roots *x509.CertPool) error {
 	}
 	chain := make([]*x509.Certificate, len(*v.CertChain))
 	for i, cert := range *v.CertChain {
+		if cert == nil {
+			return errors.New("null certificate in cert chain")
+		}
 		chain[i] = (*x509.Certificate)(cert)
 	}
 	return verifyCertChain(chain, roots)
@@ -237,6 +243,9 @@ func (v *Voucher) VerifyCertChainHash() error {
 	}
 	digest := cchashFunc.New()
 	for _, cert := range *v.CertChain {
+		if cert == nil {
+			return errors.New("null certificate in cert chain")
+		}
 		if _, err := digest.Write(cert.Raw); err != nil {
 			return fmt.Errorf("error computing hash: %w", err)
 		}
